@@ -6,7 +6,7 @@ from props import common
 CASE_WALL_S = 20
 
 ID = "C20"
-TIERS = {"quick": dict(examples=12000, parts=dict(parse=9000, transit=2000, dilation=500)),
+TIERS = {"quick": dict(examples=12000, parts=dict(parse=9000, transit=2000, dilation=800)),
          "thorough": dict(examples=360000, parts=dict(parse=300000, transit=50000, dilation=12000))}
 PARTS = ["parse", "transit", "dilation"]
 RULE = ("Lists of 0-6 JSON objects in hint position: valid direct/tor/relay hints, field-wise mutations of them "
@@ -16,7 +16,9 @@ RULE = ("Lists of 0-6 JSON objects in hint position: valid direct/tor/relay hint
         "parse_tcp_v1_hint + encode/parse round trip of generated hint objects; (transit) real TransitSender/"
         "TransitReceiver.add_connection_hints + connect() on the simulated reactor, clock advanced past all relay "
         "delays; (dilation) a real dilating peer sends the list in a connection-hints message to a real victim "
-        "wormhole. Oracle: no exception from any entry point, victim not closed/errored, and the set of "
+        "wormhole that is CONNECTING, or the message is handed to Manager.received_dilation_message of a dilated pair "
+        "the moment a Manager is seen in WANTING / CONNECTING / CONNECTED / FLUSHING / LONELY / ABANDONING / STOPPING "
+        "(tape-driven losses noticed by one side first, close()). Oracle: no exception from any entry point, victim not closed/errored, and the set of "
         "(host,port) passed to connectTCP equals an independent reference filter (string hostname, int non-bool "
         "port, type direct-tcp-v1; relay sub-hints likewise). Non-trivial = >=1 malformed element next to >=1 "
         "valid one (or a malformed relay). Distinct = (features, canonical JSON of the list).")
@@ -112,6 +114,12 @@ def dilation_cases(draw):
     c = draw(hint_lists(allow_nonobjects=False))
     n = draw(st.integers(0, 60))
     c["tape"] = draw(st.binary(min_size=n, max_size=n))
+    if draw(st.booleans()):
+        # the message arrives in a chosen Manager state instead of CONNECTING-with-nobody-listening
+        c["dil_state"] = draw(st.sampled_from(["WANTING", "CONNECTING", "CONNECTED", "FLUSHING", "LONELY", "ABANDONING",
+                                               "STOPPING"]))
+        n = draw(st.integers(40, 300))
+        c["tape"] = draw(st.binary(min_size=n, max_size=n))
     return c
 
 
@@ -384,7 +392,8 @@ def run_case(c):
         from props import c20_dilation
         c20_dilation.run(c, res)
     res.nontrivial = bool(classes - {"tor"}) and (nvalid >= 1 or any(k.startswith("relay") for k in classes))
-    res.features = dict(part=part, classes=",".join(sorted(classes))[:80], nvalid=min(nvalid, 3))
+    res.features = dict(part=part, classes=",".join(sorted(classes))[:80], nvalid=min(nvalid, 3),
+                        state=str(c.get("dil_state")))
     res.trace = _canon(hints)
     res.sample = dict(part=part, hints=hints, reference_targets=sorted(ref_targets(hints), key=repr))
     return res
